@@ -2,8 +2,10 @@ package gohbase
 
 import (
 	"context"
+	"time"
 
 	"github.com/tsuna/gohbase/hrpc"
+	"google.golang.org/protobuf/proto"
 )
 
 // C19 — Close is terminal and leaves nothing running.
@@ -49,7 +51,8 @@ func VerifCloseRace() {
 	verifQuiesce()
 
 	verifAssert(r1.done, "a request in flight returns")
-	verifAssert(r1.err == nil || r1.err == ErrClientClosed, "it succeeds or reports that the client is closed")
+	verifAssert(r1.err == nil || r1.err == ErrClientClosed || (e.tableGone && r1.err == TableNotFound),
+		"it succeeds or reports that the client is closed (or that the table is gone, if the script removed it)")
 	for _, rc := range e.clients {
 		// a region client that failed by itself (dial failure, server error) has closed its
 		// own connection, as region.(*client).fail does
@@ -73,4 +76,52 @@ func VerifCloseRace() {
 	verifAssert(verifGoroutines() == 0, "no goroutine is left behind by calls after Close")
 	sleepAndIncreaseBackoffOverride = nil
 	verifReach("closed")
+}
+
+// vClosableRPC is the client as a scanner sees it: after Close every call returns the
+// client-closed error (that the real client does so is what VerifCloseRace establishes).
+type vClosableRPC struct {
+	h      *vHBase
+	closed bool
+	after  int // calls made after Close
+}
+
+func (v *vClosableRPC) SendRPC(rpc hrpc.Call) (proto.Message, error) {
+	if v.closed {
+		v.after++
+		return nil, ErrClientClosed
+	}
+	return v.h.SendRPC(rpc)
+}
+
+// VerifCloseWithRenewingScanner: a scanner that renews its lease in the background sits in the
+// middle of a region when the client is closed. Its renewer stops at the first renewal that is
+// refused: no goroutine of the client's is left running and the closed client is not called
+// again and again.
+func VerifCloseWithRenewingScanner() {
+	verifFreezeTime(true)
+	h := &vHBase{maxResp: 0}
+	h.rows = []vRow{{key: []byte("a"), ncells: 1}, {key: []byte("b"), ncells: 1}, {key: []byte("c"), ncells: 1}}
+	h.regs = []hrpc.RegionInfo{vMkRegion(0, 1, nil, nil)}
+	rc := &vClosableRPC{h: h}
+	ctx, cancel := context.WithCancel(context.Background())
+	scan, err := hrpc.NewScanRange(ctx, []byte("t"), nil, nil, hrpc.NumberOfRows(1), hrpc.RenewInterval(20*time.Millisecond))
+	if err != nil {
+		panic(err)
+	}
+	sc := newScanner(rc, scan, vLogger())
+	r, err := sc.Next()
+	verifAssert(err == nil && r != nil, "the first row arrives")
+	verifAssert(verifGoroutines() == 1, "the lease renewer is running")
+	rc.closed = true // client.Close()
+	verifFreezeTime(false)
+	if verifNative() {
+		time.Sleep(90 * time.Millisecond) // several renew intervals
+	}
+	verifQuiesce()
+	verifAssert(rc.after <= 1, "the closed client is called at most once more by the renewer")
+	verifAssert(verifGoroutines() == 0, "no goroutine is left behind once the renewer has noticed Close")
+	cancel()
+	verifQuiesce()
+	verifReach("renewer-stopped")
 }
